@@ -416,7 +416,7 @@ def _enum_cases(max_nodes, index, count):
 def plan(tier, seed):
     nshards = 16
     max_nodes = 6 if tier == "quick" else 7
-    examples = 100 if tier == "quick" else 1500
+    examples = 200 if tier == "quick" else 1500
     tasks = [{"engine": "enum", "max_nodes": max_nodes, "index": i, "count": nshards * 2} for i in range(nshards * 2)]
     tasks += [{"engine": "hyp", "examples": examples, "seed": seed * 1000 + i} for i in range(nshards)]
     return tasks
